@@ -24,6 +24,7 @@ import (
 	"os"
 	"runtime"
 	"sort"
+	"strconv"
 	"strings"
 	"sync"
 	"syscall"
@@ -31,6 +32,7 @@ import (
 	"unicode/utf8"
 
 	gc10 "github.com/tencent/goom/zzverif/c10"
+	dotpkg "verifh/targets/c10dot/pkg.v1"
 	"verifh/targets/c10vars"
 	"verifh/vk"
 )
@@ -49,7 +51,30 @@ const (
 	apiVar  = "FindVarByName"
 )
 
-var mutationKinds = []string{"drop-last-byte", "append-0", "swap-case-of-base", "strip-package", "duplicate-last-dot"}
+var mutationKinds = []string{"drop-last-byte", "append-0", "swap-case-of-base", "strip-package", "duplicate-last-dot", "unescape-import-path"}
+
+var keepDot = dotpkg.Keep(1)
+
+func init() { dotpkg.Bump() }
+
+// canon is the Go spelling of a linker symbol name: %xx escapes in the import path undone.
+func canon(name string) string {
+	if !strings.Contains(name, "%") {
+		return name
+	}
+	var b strings.Builder
+	for i := 0; i < len(name); i++ {
+		if name[i] == '%' && i+2 < len(name) {
+			if v, err := strconv.ParseUint(name[i+1:i+3], 16, 8); err == nil {
+				b.WriteByte(byte(v))
+				i += 2
+				continue
+			}
+		}
+		b.WriteByte(name[i])
+	}
+	return b.String()
+}
 
 // mutate returns the near-miss of kind k (ok=false when the mutation is not applicable).
 func mutate(name string, k int) (string, bool) {
@@ -93,6 +118,11 @@ func mutate(name string, k int) (string, bool) {
 			return "", false
 		}
 		return name[:i] + "." + name[i:], true
+	case 5:
+		if c := canon(name); c != name {
+			return c, true
+		}
+		return "", false
 	}
 	return "", false
 }
@@ -111,7 +141,8 @@ type truth struct {
 	varNames  []string // cases, sorted
 
 	nRuntimeFuncs, nPclntabFuncs, nDupFuncNames, nRuntimeOnlyNames, nRuntimeUnnamed int
-	nDupResolved                                                            int
+	canonFuncs, canonSyms                                                           map[string][]uintptr
+	nDupResolved                                                                    int
 	nElfSyms, nElfObjects, nDupSymNames, nGenVars                                   int
 	nVarsBss, nVarsData                                                             int
 	nResolved, nErrors                                                              int64
@@ -423,6 +454,15 @@ func (t *truth) judge(cs Case) (class, desc string, resolved bool) {
 			return "", "", true
 		}
 	}
+	// the Go spelling of a name whose import path the linker escaped ("pkg.v1.f" for "pkg%2ev1.f")
+	// names the same symbol: resolving it — to exactly that symbol — is no mistake
+	if len(allowed) == 0 {
+		for _, a := range t.byCanon(cs.API, cs.Query) {
+			if a == addr {
+				return "", "", true
+			}
+		}
+	}
 	what := "no symbol of that name exists"
 	rel := "absent-name-resolved"
 	if len(allowed) > 0 {
@@ -441,6 +481,27 @@ func (t *truth) judge(cs Case) (class, desc string, resolved bool) {
 	}
 	return rel, fmt.Sprintf("%s(%q) returned %#x without error, but %s; the returned address is %s",
 		cs.API, cs.Query, addr, what, at), true
+}
+
+// byCanon returns the addresses of the table entries whose Go spelling equals that of q.
+func (t *truth) byCanon(api, q string) []uintptr {
+	if t.canonFuncs == nil {
+		t.canonFuncs, t.canonSyms = map[string][]uintptr{}, map[string][]uintptr{}
+		for n, as := range t.funcs {
+			if strings.Contains(n, "%") {
+				t.canonFuncs[canon(n)] = append(t.canonFuncs[canon(n)], as...)
+			}
+		}
+		for n, as := range t.syms {
+			if strings.Contains(n, "%") {
+				t.canonSyms[canon(n)] = append(t.canonSyms[canon(n)], as...)
+			}
+		}
+	}
+	if api == apiFunc {
+		return t.canonFuncs[canon(q)]
+	}
+	return t.canonSyms[canon(q)]
 }
 
 func (t *truth) symAt(addr uintptr) string {
